@@ -46,7 +46,7 @@ class CHECK(vlib.Check):
     model = ("Msg/MsgExtract.v", "msg_driver.ml", "msg", ("ocommon.ml",))
     harness = dict(name="wire", src="wire_h.cpp", san="asan", link_lib=True,
                    c_srcs=("lang/c/minimessage/MiniMessage.c", os.path.join(vlib.VERIF, "harness", "wire_micro.c"),
-                           os.path.join(vlib.VERIF, "harness", "wire_minigw.c"), "lang/c/micromessage/MicroMessageGateway.c"))
+                           "lang/c/minimessage/MiniMessageGateway.c", "lang/c/micromessage/MicroMessageGateway.c"))
     modelled = ("the wire format as documented (spec_msg: header, per-field framing, per-type payload forms, the three "
                 "historical special cases) and its equality with the code-shaped model of Message::Flatten; the 8-byte stream "
                 "frame; the protocol constants of all implementations (translated from message/Message.h, MiniMessage.c, "
